@@ -242,3 +242,44 @@ Definition wolf_step (dW dL scaling : Q) (qm : mat) (st : list wolf_row) (op : n
   let '(s, sel) := op in upd_row s (fun r => wolf_step_row dW dL scaling (row qm s) r sel) st.
 Definition wolf_run (dW dL scaling : Q) (qm : mat) (A : nat) (ops : list (nat * nat)) : list wolf_row :=
   fold_left (wolf_step dW dL scaling qm) ops (repeat (wolf_init A) (length qm)).
+
+(* ------------------------------------------------------------------ projectToProbability (local copy) *)
+(* src: src/Utils/Probability.cpp:projectToProbability (as repaired by 31ee3cf; the function is
+   owned by property C08, which proves more about it — this is a self-contained re-model).
+   retval[i] is the 0/1 mask, [sum]/[count] run over the entries with !(v[i] < 0). *)
+Definition pmask (x : Q) : Q := if Qlt_le_dec x 0 then 0 else 1.
+Definition ppos (x : Q) : Q := if Qlt_le_dec x 0 then 0 else x.
+Definition possum (v : vec) : Q := qsum (map ppos v).
+Definition poscount (v : vec) : nat := length (filter (fun x => if Qlt_le_dec x 0 then false else true) v).
+Definition project (v : vec) : vec :=
+  let sum := possum v in
+  if eqSmall sum 1 then map (fun x => pmask x * x) v
+  else if eqSmall sum 0 then map (fun _ => 1 / qn (length v)) v
+  else if Qlt_le_dec 1 sum then map (fun x => pmask x * (x / sum)) v
+  else let diff := (1 - sum) / qn (poscount v) in map (fun x => pmask x * (x + diff)) v.
+
+(* ------------------------------------------------------------------ PGAAPPPolicy (one state row) *)
+(* src: PGAAPPPolicy.cpp:stepUpdateP — the gradient loop (each iteration reads and writes only its
+   own entry; avgR is computed before the loop) *)
+Definition pga_grad_row (lr pl : Q) (q p : vec) : vec :=
+  let avgR := Qred (dot p q) in        (* Qred: normalises the fraction only *)
+  map (fun pq =>
+         let pa := fst pq in let qa := snd pq in
+         let d0 := if eqSmall pa 1 then qa - avgR else (qa - avgR) / (1 - pa) in
+         let delta := d0 - pl * pa * qabs d0 in
+         Qred (pa + lr * delta)) (combine p q).
+
+(* src: PGAAPPPolicy.cpp:stepUpdateP — policyMatrix_.row(s) = projectToProbability(row) *)
+Definition pga_step_row (lr pl : Q) (q p : vec) : vec := map Qred (project (pga_grad_row lr pl q p)).
+
+Fixpoint upd_vrow (s : nat) (f : vec -> vec) (l : mat) : mat :=
+  match l, s with
+  | [], _ => []
+  | r :: t, O => f r :: t
+  | r :: t, S j => r :: upd_vrow j f t
+  end.
+Definition pga_step (lr pl : Q) (qm : mat) (st : mat) (s : nat) : mat :=
+  upd_vrow s (fun r => pga_step_row lr pl (row qm s) r) st.
+(* src: PGAAPPPolicy.cpp:PGAAPPPolicy — policyMatrix_.fill(1.0/A) *)
+Definition pga_run (lr pl : Q) (qm : mat) (A : nat) (ops : list nat) : mat :=
+  fold_left (pga_step lr pl qm) ops (repeat (repeat (1 / qn A) A) (length qm)).
